@@ -10,6 +10,7 @@ From DBG Require Interop.DispatchUnitig.
 From DBG Require Interop.DispatchEdges.
 From DBG Require Interop.DispatchRecomp.
 From DBG Require Interop.DispatchExport.
+From DBG Require Interop.DispatchPipeline.
 Import ListNotations.
 Open Scope N_scope.
 
@@ -145,7 +146,8 @@ Definition dispatchers : list (string -> val -> option val) :=
     (fun op v => if existsb (String.eqb op) ["s.filter"; "s.filter_get"; "f.filter"; "chk.filter_rc"]%string
                  then DispatchFilter.d_filter op v else None);
     DispatchEdges.d_edges;
-    DispatchExport.d_export
+    DispatchExport.d_export;
+    DispatchPipeline.d_pipeline
   ].
 Fixpoint first_some (ds : list (string -> val -> option val)) (op : string) (v : val) : option val :=
   match ds with
